@@ -76,8 +76,9 @@ PROPERTIES = {
                        "stack shrinks only at the three closing sites (exhausted known-size masters drained innermost-first before the next header, "
                        "unknown-size masters popped in a loop decided by is_ended_by, everything closed innermost-first at end of input under the "
                        "EOF switch); the overrun test scans every ancestor; the hierarchy matcher is the single shared one; in strict mode no "
-                       "corruption kind is tolerated (R-TOL-STRICT: row mask 0 of the tolerance table).  Not decided: that the matcher implements the declared-path semantics, nor "
-                       "well-nestedness of the emitted sequence as such.",
+                       "corruption kind is tolerated (R-TOL-STRICT: row mask 0 of the tolerance table); the matcher's class table (R-MATCHER-TABLE) and "
+                       "that only unknown-size masters are ever closed by an element (R-CLOSE-UNKNOWN-ONLY).  Not decided: well-nestedness of the "
+                       "emitted sequence as such.",
     },
     "C01": {
         "rules": ["R-SIZE-TABLE", "R-UNKNOWN-MARKER", "R-CODEC-PAIR", "R-PAYLOAD-WIDTH"],
@@ -104,14 +105,20 @@ PROPERTIES = {
         "explanation": "Abstract interpretation of header validation for each of the 8 tolerance masks (bit values themselves derived by abstract "
                        "evaluation of allow_errors): which corruption kinds are constructible per mask, that the size limit and data checks never depend "
                        "on a mask, that strict mode accepts no untyped header; plus who-may-write for the settings and their constructor defaults.  "
-                       "'Strict items are a prefix of tolerant items' is not decided.",
+                       "A known-size master is never treated as closed by the element that follows (R-CLOSE-UNKNOWN-ONLY), so an element outside its "
+                       "allowed parents cannot slip through as 'closing' one.  'Strict items are a prefix of tolerant items' is not decided.",
     },
     "C11": {
         "rules": ["R-SHARED-MATCHER", "R-WRITER-VALIDATES", "R-CLOSE-UNKNOWN-ONLY", "R-MATCHER-TABLE"],
         "level": "other",
         "explanation": "Who-may-call check for the single shared matcher plus abstract interpretation of the writer's entries per (data type, master "
                        "form, options) class: the matcher is consulted before the first state mutation exactly for specified non-End tags, and a "
-                       "negative answer yields UnexpectedTag with no mutation.  That the matcher implements the declared-path semantics is not decided.",
+                       "negative answer yields UnexpectedTag with no mutation; the matcher itself decided per class of (declared path, chain of open "
+                       "known-size masters) by abstract interpretation — exact chain, root with/without open masters, deeper, shallower, wrong parent, "
+                       "wrong order, trailing and intermediate placeholders at, within and beyond their bounds, global elements, with chain tails of "
+                       "arbitrary length where the class allows — and the closing-predicate shortcut is taken for unknown-size masters only.  Not "
+                       "decided: paths/chains outside these classes (e.g. a placeholder followed by a named parent that also occurs inside the "
+                       "placeholder's span), and the reader/writer agreement beyond their sharing the one matcher.",
     },
     "C09": {
         "rules": ["R-FULL-EQ", "R-DEPRECATED-EQ", "R-WIDTH-TABLE", "R-DEST-OWNER", "R-FLUSH-GUARD"],
@@ -157,7 +164,8 @@ PROPERTIES = {
         "level": "proof",
         "explanation": "Abstract interpretation of try_recover() from any object state satisfying the buffer invariant: panic-freedom, "
                        "monotonicity of the stream offset (the distance subtraction cannot underflow) and the set of error variants it can "
-                       "return.  Where recovery resumes (first sentence of the property) is behavioural and not decided.",
+                       "return; every failed look-ahead advances the scan by one byte and only end of input ends it with an error; open known-size "
+                       "masters are stretched by exactly the number of bytes skipped.  Where recovery resumes is behavioural and not decided.",
     },
     "C05": {
         "rules": ["R-PANIC-ITER", "R-SPEC-CONSIST", "R-PANIC-PAYLOAD", "L-ADVANCE", "L-BUFFER-PROGRESS", "R-IOERR"],
@@ -170,9 +178,10 @@ PROPERTIES = {
     "C10": {
         "rules": ["R-DEST-OWNER", "R-FLUSH-GUARD", "R-FLUSH-API"],
         "level": "other",
-        "explanation": "Structural rules over the resolved MIR of tag_writer.rs: ownership of the destination and of buffer shrinking (who-may-access), "
-                       "the flush guard (edge dominance of private_flush by the false edge of the any(Known) scan, predicate evaluated abstractly), "
-                       "flush completeness (full drain, write_all, result returned) and close-then-deliver for flush()/into_inner().  These are the "
+        "explanation": "Ownership of the destination and of buffer shrinking (who-may-access over the resolved MIR), the flush guard by abstract "
+                       "interpretation of every writing entry per class of the open-master stack (all known-size / all unknown-size / mixed or empty): "
+                       "at every hand-over to the destination no known-size master is open, and an element or End written while none is open is handed "
+                       "over before the call returns Ok; flush completeness (full drain, write_all, result returned) and close-then-deliver for flush()/into_inner().  These are the "
                        "mechanisms the streaming guarantee rests on; 'what the destination holds parses to the tags written so far' is not decided.",
     },
     "C15": {
